@@ -33,11 +33,11 @@ EXPLANATION = (
 ASSUMPTIONS = [
     "node names are strings over code points 0..255 (one Coq ascii per character)",
     "attribute values are opaque to the expansion; the harness uses integers in E3",
-    "_try_filling_in_missing_flow_values (networkx min-cost flow) is an external engine: stubbed out in E3, exercised end-to-end by E2",
+    "_try_filling_in_missing_flow_values: networkx' min-cost flow is an external engine; every filling it produces is judged by the verified checker FillSpec.fill_certificate_ok_b (certificate = the tapped edge flow); that nothing is filled only when no extension exists is probed, not proved",
     "the harness passes list(G.nodes), list(G.predecessors(v)), list(G.successors(v)) and the attribute dicts exactly as Python enumerates them",
     "HiGHS optimal statuses are trusted as in DESIGN section 4 (E2 compares two runs of the same solver); threads=1",
 ]
-TRUSTED = ["model: coq/theories/NodeExp.v; proofs NodeExpProofs.v; driver coq/driver/h_nodeexp.ml (character-code wire format)"]
+TRUSTED = ["FillSpec.v (contract + checker of the filling step), handler coq/driver/h_fillspec.ml", "model: coq/theories/NodeExp.v; proofs NodeExpProofs.v; driver coq/driver/h_nodeexp.ml (character-code wire format)"]
 
 TIME_LIMIT = 40.0
 SO = {"threads": 1, "time_limit": TIME_LIMIT}   # the limit is only a guard against a pathological MILP; such a case is skipped, never judged
@@ -204,7 +204,7 @@ def items(d):
 def e3_cases(ctx, n, stream, adversarial):
     import flowpaths as fp
     NE = fp.NodeExpandedDiGraph
-    reqs = []; meta = []
+    reqs = []; meta = []; fill_jobs = []
 
     def add(kind, req, impl, info, prop=None):
         reqs.append(req); meta.append((kind, impl, info, prop))
@@ -243,6 +243,8 @@ def e3_cases(ctx, n, stream, adversarial):
         add("construct", "ne_construct " + common.toks(w_graph(G), w_str(flow), w_ostr(ln), w_strs(starts), w_strs(ends), tf, w_str(gsrc), w_str(gsnk)),
             impl, ginfo, prop=(G, flow))
         ctx.dist(f"{stream}:n={G.number_of_nodes()}")
+        if tf and st == "OK" and not adversarial:
+            fill_case(ctx, rng, G, flow, ln, starts, ends, ginfo, fill_jobs)
         if st != "OK":
             continue
         if starts or ends or rng.random() < 0.5:
@@ -340,6 +342,7 @@ def e3_cases(ctx, n, stream, adversarial):
         add("glue_solution", "ne_nodesol " + common.toks(wg, w_str(gsrc), w_str(gsnk), len(internal), [w_strs(p) for p in internal], len(ws), ws, rm),
             impl_call(do_glue), {**ginfo, "class": cname, "internal": internal, "weights": ws, "remove_empty": rm},
             prop=("glue", internal, ws, rm))
+    run_fill_jobs(ctx, fill_jobs)
     outs = ctx.model.run(reqs)
     for req, out, (kind, impl, info, prop) in zip(reqs, outs, meta):
         rd = Rd(out)
@@ -786,6 +789,9 @@ def e2_cases(ctx, per_class, classes=None, stream="e2"):
         canon = [cls, info["nodes"], info["edges"], json.dumps(info["kwargs"], sort_keys=True, default=str)]
         ctx.case(canon, nontrivial=nontriv, sample=info if i == 0 else None)
         ctx.dist(f"e2:{cls}:{'solved' if nobs.get('solved') else ('exc' if nobs['exc'] else 'unsolved')}")
+        nd_ = sum(1 for _, _, d in G.edges(data=True) if "flow" in d or "len" in d)
+        if nd_:
+            ctx.dist("e2:decoy values on original edges: " + ("all edges" if nd_ == G.number_of_edges() else "some edges"))
         if nobs.get("timeout") or eobs.get("timeout"):
             ctx.count(eng, "skipped_solver_time_limit"); continue
         lp_diff = None
@@ -924,7 +930,167 @@ def run(ctx):
                 "E2 case = one model class solved in node mode and on the model's explicit expansion; distinct by request text")
     e3_cases(ctx, ctx.budget(400, 6000), "plain", False)
     e3_cases(ctx, ctx.budget(250, 3000), "adversarial", True)
+    e3_fill_stream(ctx, ctx.budget(300, 6000))
     e2_cases(ctx, ctx.budget(int(os.environ.get("C11_E2_PER_CLASS", "30")), 600))
+
+
+# ----------------------------------------------------------------------------- E3: _try_filling_in_missing_flow_values
+KEY_FILL_DECOY = "fill:edge_decoy_constrains_filling"
+
+
+def _probe_extension(G, flow):
+    """independent feasibility probe (lower-bound circulation -> max-flow, networkx.maximum_flow; NOT trusted: whatever it
+    finds is handed to the verified checker).  Returns (x, y) or None."""
+    big = sum(d[flow] for _, d in G.nodes(data=True) if flow in d) + 1
+    arcs = []                                            # (a, b, lower, upper)
+    for v, d in G.nodes(data=True):
+        if flow in d: arcs.append((("n", v, 0), ("n", v, 1), d[flow], d[flow]))
+        else: arcs.append((("n", v, 0), ("n", v, 1), 0, big))
+        if G.in_degree(v) == 0: arcs.append(("S", ("n", v, 0), 0, big))
+        if G.out_degree(v) == 0: arcs.append((("n", v, 1), "T", 0, big))
+    for u, v in G.edges:
+        arcs.append((("n", u, 1), ("n", v, 0), 0, big))
+    arcs.append(("T", "S", 0, big * (G.number_of_nodes() + 1)))
+    H = nx.DiGraph(); exc = {}
+    for a, b, l, u in arcs:
+        H.add_edge(a, b, capacity=u - l)
+        exc[b] = exc.get(b, 0) + l; exc[a] = exc.get(a, 0) - l
+    need = 0
+    for n_, e in exc.items():
+        if e > 0: H.add_edge("SS", n_, capacity=e); need += e
+        elif e < 0: H.add_edge(n_, "TT", capacity=-e)
+    if need == 0:
+        fl = {a: {b: 0 for b in H[a]} for a in H}
+    else:
+        val, fl = nx.maximum_flow(H, "SS", "TT")
+        if val != need:
+            return None
+    low = {(a, b): l for a, b, l, u in arcs}
+    x = {v: low[(("n", v, 0), ("n", v, 1))] + fl[("n", v, 0)][("n", v, 1)] for v in G.nodes}
+    y = {(u, v): fl[("n", u, 1)][("n", v, 0)] for u, v in G.edges}
+    return x, y
+
+
+def fill_request(G, ids, given, x, y):
+    return "fill_check " + common.toks(len(ids), [ids[v] for v in G.nodes], G.number_of_edges(), [[ids[u], ids[v]] for u, v in G.edges],
+                                       len(given), [[ids[v]] + common.qtok(q) for v, q in given.items()],
+                                       len(x), [[ids[v]] + common.qtok(q) for v, q in x.items()],
+                                       len(y), [[ids[u], ids[v]] + common.qtok(q) for (u, v), q in y.items()])
+
+
+def fill_case(ctx, rng, G, flow, ln, starts, ends, info, jobs):
+    """runs the REAL constructor with try_filling_in_missing_flow_attr=True (min_cost_flow tapped from outside) next to a stubbed one;
+    queues the verified checker on what was filled.  jobs: list of (request, expectation, what, replay, key)."""
+    import flowpaths as fp
+    import flowpaths.nodeexpandeddigraph as nedmod
+    NE = fp.NodeExpandedDiGraph
+    orig_fill = NE._try_filling_in_missing_flow_values
+    NE._try_filling_in_missing_flow_values = lambda self: None
+    try:
+        st0, ne0 = impl_call(lambda: NE(copy.deepcopy(G), flow, try_filling_in_missing_flow_attr=True, node_length_attr=ln,
+                                        additional_starts=list(starts), additional_ends=list(ends)))
+    finally:
+        NE._try_filling_in_missing_flow_values = orig_fill
+    tap = []
+    orig_mcf = nedmod.gu.min_cost_flow
+    def tapped(*a, **k):
+        r = orig_mcf(*a, **k); tap.append(r); return r
+    nedmod.gu.min_cost_flow = tapped
+    try:
+        st1, ne1 = impl_call(lambda: NE(copy.deepcopy(G), flow, try_filling_in_missing_flow_attr=True, node_length_attr=ln,
+                                        additional_starts=list(starts), additional_ends=list(ends)))
+    finally:
+        nedmod.gu.min_cost_flow = orig_mcf
+    ctx.count("E3_fill", "cases")
+    rep = {**info, "kind": "fill"}
+    if st0 != "OK" or st1 != "OK":
+        if (st0, ne0) != (st1, ne1):
+            ctx.report(f"fill: constructor outcome depends on the filling step: {ne0} vs {ne1}", rep, concrete=False)
+        ctx.count("E3_fill", "constructor_raises"); return
+    if len(tap) != 1:
+        ctx.report(f"fill: min_cost_flow called {len(tap)} times", rep, concrete=False); return
+    fdict = tap[0][1]
+    ren = {ne1.global_source_id: ne0.global_source_id, ne1.global_sink_id: ne0.global_sink_id}
+    rn = lambda a: next((ren[k] + a[len(k):] for k in ren if a.startswith(k + ".")), a)
+    e0 = {(u, v): items(d) for u, v, d in ne0.edges(data=True)}
+    e1 = {(rn(u), rn(v)): (items(d), (u, v)) for u, v, d in ne1.edges(data=True)}
+    if list(e0) != list(e1) or [rn(v) for v in ne1.nodes] != list(ne0.nodes):
+        ctx.report("fill: the filling step changed the nodes/edges of the expanded graph", rep, concrete=True); return
+    filled_any = False
+    for e, a0 in e0.items():
+        a1, (u1, v1) = e1[e]
+        if a1 == a0:
+            if fdict is not None and flow not in dict(a0):
+                ctx.report(f"fill: a flow was found but edge {e} was not filled", rep, concrete=True); return
+            continue
+        if fdict is None or flow in dict(a0) or a1[:-1] != a0 or a1[-1][0] != flow:
+            ctx.report(f"fill: edge {e} changed from {a0} to {a1} (flow dict: {None if fdict is None else fdict[u1].get(v1)})", rep, concrete=True); return
+        if a1[-1][1] != fdict[u1][v1]:                   # not the library's own flow value: reported, and the checker below judges the written values
+            ctx.report(f"fill: edge {e} received {a1[-1][1]}, the flow found by min_cost_flow is {fdict[u1][v1]}", rep, concrete=True)
+        filled_any = True
+    ids = {v: j for j, v in enumerate(G.nodes)}
+    given = {v: d[flow] for v, d in G.nodes(data=True) if flow in d}
+    decoy = any(flow in d for _, _, d in G.edges(data=True))
+    if fdict is not None:
+        ctx.count("E3_fill", "library_filled")
+        x = {v: ne1.edges[v + ".0", v + ".1"][flow] for v in G.nodes}
+        y = {(u, v): fdict[u + ".1"][v + ".0"] for u, v in G.edges}        # the certificate: the library's own edge flow (tapped)
+        rep2 = {**rep, "given": given, "filled": x, "connecting": {f"{u}->{v}": q for (u, v), q in y.items()}}
+        jobs.append((fill_request(G, ids, given, x, y), "OK 1", "fill: the values written by _try_filling_in_missing_flow_values are rejected by the "
+                     "verified checker (not a node flow extending the given values)", rep2, None, True))
+        # mutation self-test of the checker: a filled value changed by 1 must be rejected (where the node is constrained at all)
+        cand = [v for v in G.nodes if G.in_degree(v) + G.out_degree(v) > 0 or v in given]
+        if cand:
+            v = rng.choice(cand); xm = dict(x); xm[v] = xm[v] + 1
+            jobs.append((fill_request(G, ids, given, xm, y), "OK 0", "fill: checker self-test failed: a filled value changed by 1 was accepted", rep2, None, False))
+    else:
+        ctx.count("E3_fill", "library_filled_nothing")
+        pr = _probe_extension(G, flow)
+        if pr is None:
+            ctx.count("E3_fill", "no_extension_found_by_probe")
+        else:
+            x, y = pr
+            rep2 = {**rep, "given": given, "extension": x, "connecting": {f"{u}->{v}": q for (u, v), q in y.items()}}
+            jobs.append((fill_request(G, ids, given, x, y), "OK 0", "fill: the library filled nothing although a node flow extending the given values exists "
+                         "(accepted by the verified checker)", rep2, KEY_FILL_DECOY if decoy else None, True))
+
+
+def run_fill_jobs(ctx, jobs):
+    outs = ctx.model.run([j[0] for j in jobs])
+    for (req, want, what, rep, key, concrete), out in zip(jobs, outs):
+        if want == "OK 1":
+            ctx.count("E3_fill", "checker_accepts_filling" if out == want else "checker_REJECTS_filling")
+        elif "self-test" in what:
+            ctx.count("E3_fill", "mutant_rejected" if out == want else "mutant_ACCEPTED")
+        else:
+            ctx.count("E3_fill", "probe_extension_rejected_by_checker" if out == want else "library_failed_but_extension_exists")
+        if out != want:
+            ctx.report(what, {**rep, "request": req, "checker": out}, key=key, concrete=concrete)
+
+
+def e3_fill_stream(ctx, n):
+    """dedicated stream: node weights from a superposition of routes (so an extension exists), values removed from some nodes,
+    now and then one value perturbed (usually no extension), additional starts/ends, decoys on edges"""
+    jobs = []
+    for i in range(n):
+        rng = ctx.rng("fill", i)
+        inst = node_instance(rng, rng.choice(["MinFlowDecomp", "MinFlowDecompCycles"]))
+        if inst is None:
+            continue
+        G = inst["G"]
+        for v in G.nodes:
+            if "flow" in G.nodes[v] and rng.random() < 0.25: del G.nodes[v]["flow"]
+        if rng.random() < 0.3:
+            w = [v for v in G.nodes if "flow" in G.nodes[v]]
+            if w: G.nodes[rng.choice(w)]["flow"] += rng.choice([1, 2, -1]) if G.nodes[w[0]]["flow"] > 0 else 1
+        for v in G.nodes:
+            if "flow" in G.nodes[v] and G.nodes[v]["flow"] < 0: G.nodes[v]["flow"] = 0
+        info = {"nodes": [[v, items(d)] for v, d in G.nodes(data=True)], "edges": [[u, v, items(d)] for u, v, d in G.edges(data=True)],
+                "len": None, "starts": inst["starts"], "ends": inst["ends"], "try_fill": True}
+        ctx.case(["fill", info["nodes"], info["edges"], inst["starts"], inst["ends"]], nontrivial=G.number_of_edges() > 0, sample=info if i < 2 else None)
+        fill_case(ctx, rng, G, "flow", None, inst["starts"], inst["ends"], info, jobs)
+    run_fill_jobs(ctx, jobs)
+
 
 
 # ----------------------------------------------------------------------------- replay
